@@ -9,6 +9,9 @@ pub mod ct;
 pub mod pool;
 pub mod pset;
 pub mod mutate;
+pub mod ext_g2;
+pub mod ext_g5;
+pub mod ext_g6;
 
 use crate::engine::Tape;
 use elements::confidential::{Asset, Nonce, Value};
